@@ -169,7 +169,7 @@ func (eng) Generate(mode, tier string, r *hx.Rand) []*hx.Case {
 	if mode == "c14" {
 		nh := 40
 		if tier == "thorough" {
-			nh = 400
+			nh = 300 // bounded by the descriptors a worker process accumulates (see main.go)
 		}
 		for i := 0; i < nh; i++ {
 			cs = append(cs, genHistory(r.Fork(), i, tier, mode))
@@ -178,7 +178,7 @@ func (eng) Generate(mode, tier string, r *hx.Rand) []*hx.Case {
 	}
 	na, nd, nh := 300, 400, 150
 	if tier == "thorough" {
-		na, nd, nh = 3000, 4000, 2000
+		na, nd, nh = 3000, 4000, 600 // histories bounded by the descriptors a worker process accumulates (see main.go)
 	}
 	for i := 0; i < na; i++ {
 		cs = append(cs, genAssign(r.Fork(), i))
